@@ -64,3 +64,21 @@ CHECKS["C11"] = _c(
     "Trusted: reference V2 string-to-sign (documentation vectors at start-up). Sub-resource list = core list of the V2 document. Expiry resolved to +-5 s.",
     "DESIGN.md 3/C11",
 )
+
+CHECKS["C08"] = _c(
+    "fault_enumeration",
+    "runtime monitoring with fault injection: every single fault of a reference-encoded chunk-signed upload is injected, the recording backend shows delivered bytes and terminal state, a reference decoder applied to the faulty bytes gives the expected outcome",
+    "harness (raw request driver, framed bodies)",
+    "For generated uploads (0..40 chunks, 1 B..64 KiB, PutObject and UploadPart) the check enumerates bit flips in data / size field / signature of every chunk, hex-case flip of a signature letter, resized, deleted, duplicated, swapped and spliced chunks, truncation at every byte offset (uploads <= 2 KiB) or every token boundary +-1, bytes after the final chunk, wrong or tampered decoded length, each under one of six transport framings incl. token-splitting frames and Pending schedules; delivered bytes must be a prefix of the verified chunks, the body may end cleanly only for a complete upload of the declared length, and the backend must see the decoded length as content length. Held on the fault runs observed.",
+    "Trusted: reference chunk encoder/decoder (AWS 65 KiB + 1 KiB example at start-up). One fault per run; the recording backend drains the body to its first error.",
+    "DESIGN.md 3/C08",
+)
+
+CHECKS["C10"] = _c(
+    "exploration",
+    "runtime monitoring: recording backend behind S3Service::call for reference-encoded POST forms; reference policy signer (AWS example vector) and policy evaluator applied to what the backend received",
+    "harness (raw request driver)",
+    "Valid forms over hostile field sets, boundaries and file contents, and ~35 variants each (expired or violated-but-correctly-signed policies, form changed after signing, mutations of policy / signature / credential / date / algorithm, removed fields, changed provider secret) are sent through the real service; an upload that reaches the backend must have a valid policy signature, an unexpired policy whose every condition holds for the bucket, key, fields and length received, and must arrive as one PutObject with the form's bucket, key, metadata, header-equivalent fields, identity and exactly the file bytes; a valid compliant form must not be refused. Held on the executions observed; the unenforced policy is recorded as known findings by condition kind.",
+    "Trusted: reference form encoder, policy signer (documentation vector) and evaluator. Duplicated field names and ${filename} not generated; 'every field must be covered by a condition' not judged.",
+    "DESIGN.md 3/C10",
+)
